@@ -11,6 +11,7 @@ import EdzedModel.Simulate
 import EdzedProofs.Simulate
 import EdzedModel.Gen.Translated
 import EdzedProofs.SimTie
+import EdzedProofs.CBlocksTie
 
 namespace Edzed.Sim
 
@@ -241,5 +242,171 @@ open Edzed.SimTie in
 theorem translated_pause_is_idle (c : Sim.Circuit) (s s' : Sim.St Val) (h : Sim.idleOp c s = some s') :
     pauseCond c (Sim.drain c.net s) = true ∧ s' = { Sim.drain c.net s with cnt := 0 } :=
   idle_pause c s s' h
+
+/-! ### constructors and argument passing of the library CBlocks (edzed/blocklib/cblocks.py)
+
+`Gen.TrC.*` (EdzedModel/Gen/TranslatedCBlocks.lean) is regenerated by tools/py2lean_cblocks.py from the
+current source: the constructors as lists of actions in program order, `FuncBlock.calc_output` as the
+call its function receives, the `start()` methods as their signature demands.  Model:
+EdzedModel/CBlocks.lean; lemmas: EdzedProofs/CBlocksTie.lean. -/
+
+section CBlocks
+open Edzed.Sim Edzed.CBlocks Edzed.CBlocksTie Edzed.Gen.TrC
+
+/-- `FuncBlock.calc_output`: for every set of connected inputs (`self.inputs` = the dict keys,
+    `self._in[name]` = a value for a single input, a tuple for a group) and both `unpack` modes the
+    function receives exactly the model's documented call -/
+theorem translated_funcblock_calc_is_model (b : CBlk) (h : KeysOk b) (unpack : Bool) (outC outS : Nat → Val) :
+    funcBlockCalc unpack (inputKeys b) (lookupArg (entries b outC outS))
+      = some (funcCall b unpack outC outS) :=
+  funcBlockCalc_eq b h unpack outC outS
+
+/-- … hence the output of a FuncBlock in the simulator model (`Sim.calcBlk`) IS its function applied to the
+    call the translated code makes -/
+theorem translated_funcblock_output_is_function_of_call (b : CBlk) (f : Script) (u : Bool)
+    (hfn : b.fn = .func f u) (h : KeysOk b) (own : Val) (outC outS : Nat → Val) :
+    ∃ c, funcBlockCalc u (inputKeys b) (lookupArg (entries b outC outS)) = some c ∧
+         calcBlk b own outC outS = Script.apply f u c :=
+  ⟨_, funcBlockCalc_eq b h u outC outS, calcBlk_func b f u hfn h own outC outS⟩
+
+/-- the documented shape of that call: unnamed inputs are separate positional values when `unpack` is
+    true and ONE tuple when it is false; a named single input is a keyword VALUE, a named group a keyword
+    TUPLE; nothing else is passed -/
+theorem translated_funcblock_documented_arguments (b : CBlk) (h : KeysOk b) (outC outS : Nat → Val) :
+    funcBlockCalc true (inputKeys b) (lookupArg (entries b outC outS))
+      = some ⟨(b.pos.map (Src.val outC outS)).map Arg.one,
+              b.named.map (fun p => (p.1, Arg.one (p.2.val outC outS)))
+              ++ b.groups.map (fun g => (g.1, Arg.many (g.2.map (Src.val outC outS))))⟩ ∧
+    funcBlockCalc false (inputKeys b) (lookupArg (entries b outC outS))
+      = some ⟨[Arg.many (b.pos.map (Src.val outC outS))],
+              b.named.map (fun p => (p.1, Arg.one (p.2.val outC outS)))
+              ++ b.groups.map (fun g => (g.1, Arg.many (g.2.map (Src.val outC outS))))⟩ :=
+  ⟨funcBlockCalc_eq b h true outC outS, funcBlockCalc_eq b h false outC outS⟩
+
+/-- `FuncBlock.__init__` stores the function and the flag BEFORE the base class constructor runs, and
+    `unpack` defaults to `True` (the model's `mkFunc`) -/
+theorem translated_funcblock_init_is_model (f : Script) (unpack : Option Bool) :
+    runCtor (funcBlockInit unpack) = .ok ([("_func", .func), ("_unpack", .bool (unpack.getD true))], true) ∧
+    mkFunc f unpack = .func f (unpack.getD true) :=
+  ⟨rfl, rfl⟩
+
+theorem translated_funcblock_unpack_defaults_to_true :
+    runCtor (funcBlockInit none) = .ok ([("_func", .func), ("_unpack", .bool true)], true) := rfl
+
+/-- `And`, `Or`, `Xor` are FuncBlocks that pass `unpack=False`: their function (translated separately:
+    `andFunc`, `orFunc`, `xorFunc`) receives ONE tuple of all unnamed inputs – which is how `Sim.calcBlk`
+    computes them -/
+theorem translated_logic_blocks_pass_one_tuple (b : CBlk) (h : KeysOk b) (outC outS : Nat → Val) :
+    runCtor andInit = .ok ([("_func", .func), ("_unpack", .bool false)], true) ∧
+    runCtor orInit = .ok ([("_func", .func), ("_unpack", .bool false)], true) ∧
+    runCtor xorInit = .ok ([("_func", .func), ("_unpack", .bool false)], true) ∧
+    (funcBlockCalc false (inputKeys b) (lookupArg (entries b outC outS))).map (·.pos)
+      = some [Arg.many (b.pos.map (Src.val outC outS))] ∧
+    calcBlk { b with fn := .and } .undef outC outS = Val.bool (Gen.Tr.andFunc (b.pos.map (Src.val outC outS))) ∧
+    calcBlk { b with fn := .or } .undef outC outS = Val.bool (Gen.Tr.orFunc (b.pos.map (Src.val outC outS))) := by
+  refine ⟨rfl, rfl, rfl, ?_, rfl, rfl⟩
+  rw [funcBlockCalc_eq b h false outC outS]
+  rfl
+
+/-- `Compare.__init__` IS the model's `mkCompare`: `high < low` is tested FIRST and refused with ValueError
+    (nothing is stored, the base class constructor does not run); otherwise both thresholds are stored -/
+theorem translated_compare_init_is_model (low high : Rat) :
+    (runCtor (compareInit low high)).map (fun _ => Fn.compare low high)
+      = (mkCompare low high).mapError (fun _ => "ValueError") := by
+  rw [runCtor_compareInit]
+  unfold mkCompare
+  by_cases h : high < low <;> simp [h, Except.map, Except.mapError]
+
+theorem translated_compare_refuses_high_below_low (low high : Rat) (h : high < low) :
+    compareInit low high = [Prim.raise "ValueError"] := by
+  simp [compareInit, h]
+
+/-- a Compare that was constructed has `low ≤ high` – the hypothesis of C01's `library_idempotent` /
+    `compare_spec` is discharged by the translated constructor guard -/
+theorem translated_compare_constructed_is_ok (low high : Rat) (attrs : List (String × CVal) × Bool)
+    (h : runCtor (compareInit low high) = .ok attrs) :
+    attrs = ([("_low", .rat low), ("_high", .rat high)], true) ∧
+    (CBlk.ok { fn := .compare low high } = true) := by
+  rw [runCtor_compareInit] at h
+  by_cases hlt : high < low
+  · simp [hlt] at h
+  · simp only [hlt, ↓reduceIte, Except.ok.injEq] at h
+    refine ⟨h.symm, ?_⟩
+    simp only [CBlk.ok, decide_eq_true_eq]
+    exact Rat.not_lt.mp hlt
+
+/-- THE HYSTERESIS LAW from the translated code alone: for every Compare whose translated constructor
+    succeeded, the translated `calc_output` gives True at or above `high`, False below `low`, keeps its
+    output in between, and compares with the mean on the first evaluation -/
+theorem translated_compare_hysteresis (low high : Rat) (attrs : List (String × CVal) × Bool)
+    (h : runCtor (compareInit low high) = .ok attrs) (own : Val) (x : Rat) :
+    (high ≤ x → Gen.Tr.compareCalc low high own x = true) ∧
+    (x < low → Gen.Tr.compareCalc low high own x = false) ∧
+    (own.isUndef = false → low ≤ x → x < high → Gen.Tr.compareCalc low high own x = own.truthy) ∧
+    (own.isUndef = true → Gen.Tr.compareCalc low high own x = decide ((low + high) / 2 ≤ x)) := by
+  have hok := (translated_compare_constructed_is_ok low high attrs h).2
+  simp only [CBlk.ok, decide_eq_true_eq] at hok
+  exact compareCalc_hysteresis low high hok own x
+
+/-- `Override.__init__`: `null_value` defaults to `None` (the model's `mkOverride`) -/
+theorem translated_override_init_is_model (null : Option Val) :
+    runCtor (overrideInit null) = .ok ([("_null", .val (null.getD Val.none))], true) ∧
+    mkOverride null = .override (null.getD Val.none) :=
+  ⟨rfl, rfl⟩
+
+/-- `start()` of Not / Compare / Override: the base class first, then exactly the inputs `Sim.calcBlk`
+    reads are demanded – one unnamed input, resp. the single inputs `input` and `override` -/
+theorem translated_cblock_start_signatures :
+    notStart = [.superStart, .checkSignature [("_", some 1)]] ∧
+    compareStart = [.superStart, .checkSignature [("_", some 1)]] ∧
+    overrideStart = [.superStart, .checkSignature [("input", none), ("override", none)]] :=
+  ⟨rfl, rfl, rfl⟩
+
+/-- `FuncBlock.start` IS the model's `funcStart`: a trial call with `inspect.signature(func).bind` in the
+    slot of the function decides whether the function fits the connected inputs -/
+theorem translated_funcblock_start_is_model (trial : Option String) :
+    runStart .user false (funcBlockStart trial) = funcStart trial :=
+  runStart_funcBlockStart trial
+
+/-- … the trial call happens with `bind` in the slot, BEFORE the base class `start()`; whatever it raises,
+    the user's function is back in the slot afterwards (`finally`), and the base class is started only when
+    the function fits; a mismatch (TypeError) is reported as TypeError, anything else passes unchanged -/
+theorem translated_funcblock_start_restores_function (trial : Option String) :
+    (∃ rest, funcBlockStart trial = .saveFunc :: .setFunc .bind :: .calcOutput :: rest) ∧
+    (runStart .user false (funcBlockStart trial)).1 = .user ∧
+    ((runStart .user false (funcBlockStart trial)).2.1 = true ↔ trial = none) ∧
+    (∀ e, trial = some e → (runStart .user false (funcBlockStart trial)).2.2 = .error e) := by
+  rw [runStart_funcBlockStart]
+  refine ⟨⟨_, rfl⟩, ?_, ?_, ?_⟩
+  · cases trial <;> rfl
+  · cases trial <;> simp [funcStart]
+  · intro e he; subst he; rfl
+
+/-! non-vacuity -/
+
+/-- a FuncBlock `f(s0, c0, c=s1, g=(c0, s0))` -/
+def exBlk : CBlk :=
+  { fn := .func .glen true, pos := [.s 0, .c 0], named := [("c", .s 1)], groups := [("g", [.c 0, .s 0])] }
+
+example : KeysOk exBlk := by unfold KeysOk; decide
+
+example : funcBlockCalc true (inputKeys exBlk) (lookupArg (entries exBlk (fun _ => Val.bool true) (fun _ => Val.int 3)))
+    = some ⟨[.one (Val.int 3), .one (Val.bool true)],
+            [("c", .one (Val.int 3)), ("g", .many [Val.bool true, Val.int 3])]⟩ := by decide +kernel
+
+example : funcBlockCalc false (inputKeys exBlk) (lookupArg (entries exBlk (fun _ => Val.bool true) (fun _ => Val.int 3)))
+    = some ⟨[.many [Val.int 3, Val.bool true]],
+            [("c", .one (Val.int 3)), ("g", .many [Val.bool true, Val.int 3])]⟩ := by decide +kernel
+
+/-- the constructor guard has both outcomes -/
+example : runCtor (compareInit 1 2) = .ok ([("_low", .rat 1), ("_high", .rat 2)], true)
+    ∧ runCtor (compareInit 2 2) = .ok ([("_low", .rat 2), ("_high", .rat 2)], true)
+    ∧ runCtor (compareInit 2 1) = .error "ValueError" := by
+  refine ⟨?_, ?_, ?_⟩
+  · rw [runCtor_compareInit, if_neg (by decide +kernel)]
+  · rw [runCtor_compareInit, if_neg (by decide +kernel)]
+  · rw [runCtor_compareInit, if_pos (by decide +kernel)]
+
+end CBlocks
 
 end Edzed.TrTie
